@@ -7,6 +7,7 @@ package resprops
 
 import (
 	"fmt"
+	"runtime"
 	"sync"
 	"testing"
 
@@ -69,4 +70,107 @@ func TestC17Registry(t *testing.T) {
 		default:
 		}
 	})
+}
+
+// ---------------------------------------------------------------------------------------------
+// concurrent registration: packages register their custom typerefs from init functions and, with plugins or lazily
+// initialised packages, from several goroutines; every registration that returned must be in effect afterwards
+
+// probe is a family of distinct named types (one per type argument), each usable as a custom typeref over int32.
+type probe[Tag any] int32
+
+// regProbe returns a function registering probe[Tag] and one checking that the registration is in effect.
+func regProbe[Tag any]() [2]func() string {
+	return [2]func() string{
+		func() string {
+			restlicodec.RegisterCustomTyperef(
+				func(c probe[Tag]) (int32, error) { return int32(c), nil },
+				func(i int32) (probe[Tag], error) { return probe[Tag](i), nil },
+				func(c probe[Tag]) fnv1a.Hash { return fnv1a.HashInt32(int32(c)) },
+				func(a, b probe[Tag]) bool { return a == b },
+			)
+			return ""
+		},
+		func() (msg string) {
+			defer func() {
+				if r := recover(); r != nil {
+					msg = fmt.Sprintf("custom typeref %T was registered (RegisterCustomTyperef returned) but is not in the registry: %v", probe[Tag](0), r)
+				}
+			}()
+			w := restlicodec.NewCompactJsonWriter()
+			if err := restlicodec.MarshalRestLi(probe[Tag](41), w); err != nil {
+				return err.Error()
+			}
+			r, _ := restlicodec.NewJsonReader([]byte(w.Finalize()))
+			back, err := restlicodec.UnmarshalRestLi[probe[Tag]](r)
+			if err != nil || back != 41 {
+				return fmt.Sprintf("custom typeref %T came back as %d (%v)", probe[Tag](0), back, err)
+			}
+			return ""
+		},
+	}
+}
+
+func TestC17ConcurrentRegistration(t *testing.T) {
+	rec := stats.For("C17")
+	if hx.Replaying() {
+		t.Skip()
+	}
+	// a type can be registered once per process: one barrier-released round per test process (every shard runs one)
+	probes := [][2]func() string{
+		regProbe[[0]byte](),
+		regProbe[[1]byte](),
+		regProbe[[2]byte](),
+		regProbe[[3]byte](),
+		regProbe[[4]byte](),
+		regProbe[[5]byte](),
+		regProbe[[6]byte](),
+		regProbe[[7]byte](),
+		regProbe[[8]byte](),
+		regProbe[[9]byte](),
+		regProbe[[10]byte](),
+		regProbe[[11]byte](),
+		regProbe[[12]byte](),
+		regProbe[[13]byte](),
+		regProbe[[14]byte](),
+		regProbe[[15]byte](),
+		regProbe[[16]byte](),
+		regProbe[[17]byte](),
+		regProbe[[18]byte](),
+		regProbe[[19]byte](),
+		regProbe[[20]byte](),
+		regProbe[[21]byte](),
+		regProbe[[22]byte](),
+		regProbe[[23]byte](),
+		regProbe[[24]byte](),
+		regProbe[[25]byte](),
+		regProbe[[26]byte](),
+		regProbe[[27]byte](),
+		regProbe[[28]byte](),
+		regProbe[[29]byte](),
+		regProbe[[30]byte](),
+		regProbe[[31]byte](),
+	}
+	old := runtime.GOMAXPROCS(8)
+	defer runtime.GOMAXPROCS(old)
+	start := make(chan struct{})
+	var wg sync.WaitGroup
+	for _, p := range probes {
+		wg.Add(1)
+		go func(reg func() string) {
+			defer wg.Done()
+			<-start
+			reg()
+		}(p[0])
+	}
+	close(start)
+	wg.Wait()
+	rec.Case("registry_concurrent_registration")
+	rec.NonTrivial("registry-registration", fmt.Sprintf("registration|%d", len(probes)), func() any { return map[string]any{"types_registered_concurrently": len(probes)} })
+	for _, p := range probes {
+		if msg := p[1](); msg != "" {
+			rec.Violation("registry-registration", msg, map[string]any{"types": len(probes)})
+			t.Fatal(msg)
+		}
+	}
 }
